@@ -60,6 +60,9 @@ type retSite struct {
 	pc   string
 	st   *State
 	vals []Val
+	// viaPanic: a return through the recover handler; it may be unreachable (the panic it handles is excluded by
+	// its own obligation), so no vacuity guard is attached to it
+	viaPanic bool
 }
 
 type deferRec struct {
@@ -671,10 +674,16 @@ func (ex *Exec) typeAssert(in *ssa.TypeAssert) Val {
 		// on failure the value is the zero value
 		z := em.zero(in.AssertedType)
 		res.E = em.define("ta", res.S, ite(okv.E, res.E, z.E))
+		if w := em.wf(res); w != "" {
+			em.assume(and(ex.curPC, okv.E), w) // type invariant of the value held by the interface
+		}
 		return Val{Tuple: []Val{res, okv}, T: in.Type()}
 	}
 	ex.oblige("assert-type", ex.curPC, ok, in.Pos(), "")
 	res.E = em.define("ta", res.S, res.E)
+	if w := em.wf(res); w != "" {
+		em.assume(ex.curPC, w) // type invariant of the value held by the interface
+	}
 	return res
 }
 
